@@ -38,7 +38,7 @@ pub const POOL_SIZES: [usize; 6] = [1, 2, 3, 4, 16, 64];
 
 // ------------------------------------------------------------------------------ C07
 
-pub const C07_RULE: &str = "positions including checkmated, stalemated, single-legal-move and in-check ones (cage / pin-check themes, placements, endgames, reachable walks), half-move clock 0..150 and 0..3 prior registrations of the position (so draw-by-history states with legal moves are included), depth 0..3 (3 only for <= 8 men), rayon pools of 1/2/3/4/16/64 threads, through alpha_beta_search with a new or a used generator and through Game::select_alpha_beta_best_move: depth 0 -> Err(DepthTooLow) (a terminal position at depth 0 may report either declared error); no legal move and depth >= 1 -> Err(NoAvailableMoves); otherwise Ok(move) whose (kind, from, to, promotion, captured) is in the reference legal set; full observable snapshot identical before and after; no panic. Non-trivial = terminal, single legal move, in check, depth 0, clock >= 100 or repetition count 3 with legal moves, or pool size != 1; distinct = hash of the case.";
+pub const C07_RULE: &str = "positions including checkmated, stalemated, single-legal-move and in-check ones (cage / pin-check themes, placements, endgames, reachable walks), half-move clock 0..150 and 0..3 prior registrations of the position (so draw-by-history states with legal moves are included), depth 0..3 (3 only for <= 8 men), rayon pools of 1/2/3/4/16/64 threads, through alpha_beta_search with a new or a used generator (optionally followed by a second search with the same context on the same position or on the same placement with the other side to move) and through Game::select_alpha_beta_best_move: depth 0 -> Err(DepthTooLow) (a terminal position at depth 0 may report either declared error); no legal move and depth >= 1 -> Err(NoAvailableMoves); otherwise Ok(move) whose (kind, from, to, promotion, captured) is in the reference legal set; full observable snapshot identical before and after; no panic. Non-trivial = terminal, single legal move, in check, depth 0, clock >= 100 or repetition count 3 with legal moves, or pool size != 1; distinct = hash of the case.";
 
 #[derive(Clone, Debug, Serialize, Deserialize)]
 pub struct SearchCase {
@@ -49,6 +49,10 @@ pub struct SearchCase {
     pub reps: u8,
     pub via_game: bool,
     pub used_generator: bool,
+    /// a further search with the SAME context and generator: 0 none, 1 the same position again,
+    /// 2 the same placement with the other side to move (if that is a consistent position)
+    #[serde(default)]
+    pub again: u8,
 }
 
 pub struct C07Searches;
@@ -56,6 +60,9 @@ pub struct C07Searches;
 fn search_position() -> BoxedStrategy<String> {
     prop_oneof![
         5 => gen::terminal_biased(),
+        1 => (0usize..gen::FORCED_SEEDS.len(), prop::collection::vec(any::<u16>(), 0..4)).prop_map(|(i, sels)| {
+            gen::walk_end(&gen::Walk { fen: gen::FORCED_SEEDS[i].to_string(), sels }).fen()
+        }),
         3 => gen::cage_theme().prop_map(|r| gen::build(&r).fen()),
         3 => gen::pin_check_theme().prop_map(|r| gen::build(&r).fen()),
         3 => gen::endgame(5).prop_map(|r| gen::build(&r).fen()),
@@ -82,8 +89,9 @@ impl Prop for C07Searches {
             prop_oneof![8 => Just(0u8), 1 => Just(1u8), 1 => Just(2u8), 1 => Just(3u8)],
             any::<bool>(),
             any::<bool>(),
+            prop_oneof![2 => Just(0u8), 1 => Just(1u8), 2 => Just(2u8)],
         )
-            .prop_map(|(fen, depth, pool, half, reps, via_game, used_generator)| SearchCase {
+            .prop_map(|(fen, depth, pool, half, reps, via_game, used_generator, again)| SearchCase {
                 fen,
                 depth,
                 pool,
@@ -91,6 +99,7 @@ impl Prop for C07Searches {
                 reps,
                 via_game,
                 used_generator,
+                again,
             })
             .boxed()
     }
@@ -177,6 +186,46 @@ impl Prop for C07Searches {
                 Ok(Err(SearchError::NoAvailableMoves)) => Outcome::NoMoves,
                 Ok(Err(SearchError::DepthTooLow)) => Outcome::DepthTooLow,
             };
+            // a further search with the same context and generator
+            if c.again != 0 && depth >= 1 {
+                let mut pos2 = pos.clone();
+                if c.again == 2 {
+                    pos2.side = pos.side.other();
+                    pos2.ep = None;
+                }
+                if pos2.consistent().is_ok() {
+                    let legal2 = pos2.legal_moves();
+                    board.set_turn(to_color(pos2.side));
+                    if c.again == 2 && pos.ep.is_some() {
+                        // the flipped position has no en-passant target: use a from-scratch board
+                        board = to_board(&pos2);
+                    }
+                    let before2 = snapshot(&board);
+                    let r2 = no_panic(|| p.install(|| alpha_beta_search(&mut ctx, &mut board, &mut g)));
+                    let after2 = snapshot(&board);
+                    st.label(if c.again == 2 { "second-search-other-side-same-context" } else { "second-search-same-position-same-context" });
+                    if let Some(d) = snapshot_diff(&before2, &after2) {
+                        return Err(fail_pos(format!("second search on the same context changed the caller's board: {}", d), &pos2));
+                    }
+                    let ok2 = match r2 {
+                        Err(m) => return Err(fail_pos(format!("second search on the same context panicked: {}", m), &pos2)),
+                        Ok(Ok(m)) => legal2.contains(&mv_of(&m)),
+                        Ok(Err(SearchError::NoAvailableMoves)) => legal2.is_empty(),
+                        Ok(Err(SearchError::DepthTooLow)) => false,
+                    };
+                    if !ok2 {
+                        return Err(fail_pos(
+                            format!(
+                                "a second search with the same context ({}) did not return a legal move of {} ({} legal moves)",
+                                if c.again == 2 { "same placement, other side to move" } else { "same position" },
+                                pos2.fen(),
+                                legal2.len()
+                            ),
+                            &pos2,
+                        ));
+                    }
+                }
+            }
             (o, before, after)
         };
         if let Some(d) = snapshot_diff(&before, &after) {
@@ -477,7 +526,7 @@ impl Prop for C08Searches {
 
 // ------------------------------------------------------------------------------ C10
 
-pub const C10_RULE: &str = "seed positions: the six standard perft positions, special-move-rich hand-made seeds and generated set-ups (castle/ep/promotion themes, placements <= 12 men) x depth 0..3 (4 for the initial position and sparse seeds) x rayon pools of 1/2/5/16 threads x generator state (new; the same call twice on one generator; reused across other seeds; reused across increasing depths exactly as run_count_positions does): MoveGenerator::count_positions(d) must equal the cumulative reference perft sum_{k=1..d+1} perft(k). The built `chess count-positions --depth d` binary is run and its 'depth: k, positions: n' lines compared with the same sums. Non-trivial = depth >= 2 and the reference tree contains en passant, castling or promotion, or the generator was reused; distinct = hash of (seed, depth, pool, state).";
+pub const C10_RULE: &str = "seed positions: the six standard perft positions, special-move-rich hand-made seeds and generated set-ups (castle/ep/promotion themes, placements <= 12 men) x depth 0..3 (4 for the initial position and sparse seeds) x rayon pools of 1..16 threads (all sixteen sizes at depth 1 on the standard positions) x generator state (new; the same call twice on one generator; reused across other seeds; reused across increasing depths exactly as run_count_positions does): MoveGenerator::count_positions(d) must equal the cumulative reference perft sum_{k=1..d+1} perft(k). The built `chess count-positions --depth d` binary is run and its 'depth: k, positions: n' lines compared with the same sums. Non-trivial = depth >= 2 and the reference tree contains en passant, castling or promotion, or the generator was reused; distinct = hash of (seed, depth, pool, state).";
 
 pub fn cumulative_perft(pos: &Pos, depth: u8) -> (u64, bool) {
     // returns sum_{k=1..depth+1} perft(k) and whether a special move occurs in the tree
@@ -524,11 +573,11 @@ pub struct CountCase {
     pub state: u8,
 }
 
-const COUNT_POOLS: [usize; 4] = [1, 2, 5, 16];
+const COUNT_POOLS: [usize; 16] = [1, 2, 5, 16, 3, 4, 6, 7, 8, 9, 10, 11, 12, 13, 14, 15];
 
 fn count_once(c: &CountCase, st: &mut Stats) -> TestResult {
     let pos = Pos::from_fen(&c.fen).map_err(Failure::new)?;
-    let threads = COUNT_POOLS[c.pool as usize % 4];
+    let threads = COUNT_POOLS[c.pool as usize % COUNT_POOLS.len()];
     let p = pool(threads);
     let side = to_color(pos.side);
     let mut g = MoveGenerator::new();
@@ -607,7 +656,7 @@ impl Prop for C10Generated {
                 1 => gen::pawn_placement().prop_map(|r| gen::build(&r).fen()),
             ],
             0u8..=2,
-            0u8..4,
+            0u8..16,
             0u8..4,
         )
             .prop_map(|(fen, depth, pool, state)| CountCase { fen, depth, pool, state })
@@ -654,6 +703,17 @@ fn run_c10_standard(env: &Env, agg: &mut Stats) -> Option<Violation> {
             pool: 1,
             state: 0,
         });
+    }
+    // every pool size 1..=16 at depth 1 (cheap) on the standard positions
+    for (i, s) in STANDARD.iter().enumerate() {
+        for pool in 0..COUNT_POOLS.len() {
+            cases.push(CountCase {
+                fen: s.1.to_string(),
+                depth: 1,
+                pool: pool as u8,
+                state: if (i + pool) % 2 == 0 { 0 } else { 1 },
+            });
+        }
     }
     for c in cases {
         agg.eval();
